@@ -624,6 +624,55 @@ theorem WOwn.reallocate {w : World} (h : WOwn w) (k : Nat) (v : Vec) (hv : w.vec
         have := congrArg Ptr.blk (hmk ⟨some s, units, newAlloc⟩).1
         rw [← hs]; exact this) t
 
+/-- the owning pointer's copy assignment inside a world: the owner at name `d` (current pointer `vd.ptr`) is assigned the
+    pointer `o`; `mk` rebuilds the owner around the resulting pointer -/
+theorem WOwn.ptr_copyAssign {w : World} (h : WOwn w) (d : Nat) (vd : Vec) (hvd : w.vecs d = some vd) (o : Ptr)
+    (mk : Ptr → Vec) (hmk : ∀ p, (mk p).ptr = p ∧ (mk p).S = vd.S) (t : Bool) :
+    WOwn { (w.set d (some (mk (vd.ptr.copyAssign w.heap w.acfg vd.S o).2.1))) with
+      heap := (vd.ptr.copyAssign w.heap w.acfg vd.S o).1, threw := t } := by
+  unfold Ptr.copyAssign
+  by_cases hb : (w.acfg.pocca && !w.acfg.ae && !w.acfg.eq vd.ptr.alloc o.alloc) = true
+  · simp only [hb, if_true]
+    exact h.reallocate d vd hvd o.alloc o.units mk hmk t
+  · simp only [hb, Bool.false_eq_true, if_false]
+    -- the allocator is replaced by an equal one (or kept)
+    have hp1 : Owns w.heap w.acfg vd.S (if w.acfg.pocca = true then { vd.ptr with alloc := o.alloc } else vd.ptr) := by
+      by_cases hpc : w.acfg.pocca = true
+      · simp only [hpc, if_true]
+        apply owns_propagate w.heap w.acfg vd.S vd.ptr o.alloc (h.owns d vd hvd)
+        simp only [hpc, Bool.true_and, Bool.and_eq_true, Bool.not_eq_true', not_and, Bool.not_eq_false] at hb
+        simp only [ACfg.eq, Bool.or_eq_true, beq_iff_eq]
+        by_cases hae : w.acfg.ae = true
+        · exact Or.inl hae
+        · have := hb (by simpa using hae)
+          simp only [ACfg.eq, Bool.or_eq_true, beq_iff_eq] at this
+          exact this
+      · simp only [hpc, Bool.false_eq_true, if_false]; exact h.owns d vd hvd
+    have hblk1 : (if w.acfg.pocca = true then { vd.ptr with alloc := o.alloc } else vd.ptr).blk = vd.blk := by
+      by_cases hpc : w.acfg.pocca = true <;> simp [hpc, Vec.ptr, Vec.clear]
+    generalize (if w.acfg.pocca = true then { vd.ptr with alloc := o.alloc } else vd.ptr) = p1 at hp1 hblk1
+    -- intermediate world: vector d carries p1
+    have hw1 : WOwn { (w.set d (some (mk p1))) with threw := t } :=
+      h.set_owner d vd (mk p1) hvd (by have := congrArg Ptr.blk (hmk p1).1; exact this.trans hblk1)
+        (by rw [(hmk p1).1, (hmk p1).2]; exact hp1) t
+    by_cases hneed : (decide (p1.units < o.units) || p1.blk.isNone) = true
+    · simp only [hneed, if_true]
+      have := hw1.reallocate d (mk p1) (by simp [World.set]) p1.alloc o.units mk
+        (fun p => ⟨(hmk p).1, (hmk p).2.trans (hmk p1).2.symm⟩) t
+      simp only [(hmk p1).1, (hmk p1).2] at this
+      have hset : ∀ (x : Vec), ((w.set d (some (mk p1))).set d (some x)).vecs = (w.set d (some x)).vecs := by
+        intro x; funext i; simp only [World.set]; by_cases hi : i = d <;> simp [hi]
+      refine ⟨this.wf, ?_, ?_, ?_, this.noerr⟩
+      · intro i x hx; exact this.owns i x (by show ((w.set d _).set d _).vecs i = _; rw [hset]; exact hx)
+      · intro k1 k2 v1 v2 b h1 h2; exact this.excl k1 k2 v1 v2 b (by show ((w.set d _).set d _).vecs k1 = _; rw [hset]; exact h1)
+          (by show ((w.set d _).set d _).vecs k2 = _; rw [hset]; exact h2)
+      · intro b hbl hk
+        obtain ⟨i, x, hx, hbx⟩ := this.noleak b hbl hk
+        exact ⟨i, x, by have : ((w.set d _).set d _).vecs i = some x := hx
+                        rw [hset] at this; exact this, hbx⟩
+    · simp only [hneed, Bool.false_eq_true, if_false]
+      exact hw1
+
 /-- copy assignment `d = s` -/
 theorem WOwn.copyAssign {w : World} (h : WOwn w) (s d : Nat) : WOwn (w.copyAssign s d) := by
   unfold World.copyAssign
@@ -641,50 +690,8 @@ theorem WOwn.copyAssign {w : World} (h : WOwn w) (s d : Nat) : WOwn (w.copyAssig
         have hclr : vd.clear.ptr = vd.ptr ∧ vd.clear.S = vd.S := ⟨rfl, rfl⟩
         -- after the pointer assignment: a world whose vector `d` is `vd.clear` with the assigned pointer
         have hstep : ∀ (t : Bool), WOwn { (w.set d (some (vd.clear.setPtr (vd.clear.ptr.copyAssign w.heap w.acfg vd.S vs.ptr).2.1))) with
-            heap := (vd.clear.ptr.copyAssign w.heap w.acfg vd.S vs.ptr).1, threw := t } := by
-          intro t
-          have hmk : ∀ p, (vd.clear.setPtr p).ptr = p ∧ (vd.clear.setPtr p).S = vd.S := fun p => ⟨by cases p; rfl, rfl⟩
-          unfold Ptr.copyAssign
-          by_cases hb : (w.acfg.pocca && !w.acfg.ae && !w.acfg.eq vd.clear.ptr.alloc vs.ptr.alloc) = true
-          · simp only [hb, if_true]
-            exact h.reallocate d vd hvd vs.ptr.alloc vs.ptr.units (fun p => vd.clear.setPtr p) hmk t
-          · simp only [hb, Bool.false_eq_true, if_false]
-            -- the allocator is replaced by an equal one (or kept)
-            have hp1 : Owns w.heap w.acfg vd.S (if w.acfg.pocca = true then { vd.clear.ptr with alloc := vs.ptr.alloc } else vd.clear.ptr) := by
-              by_cases hpc : w.acfg.pocca = true
-              · simp only [hpc, if_true]
-                apply owns_propagate w.heap w.acfg vd.S vd.clear.ptr vs.ptr.alloc (h.owns d vd hvd)
-                simp only [hpc, Bool.true_and, Bool.and_eq_true, Bool.not_eq_true', not_and, Bool.not_eq_false] at hb
-                simp only [ACfg.eq, Bool.or_eq_true, beq_iff_eq]
-                by_cases hae : w.acfg.ae = true
-                · exact Or.inl hae
-                · have := hb (by simpa using hae)
-                  simp only [ACfg.eq, Bool.or_eq_true, beq_iff_eq] at this
-                  exact this
-              · simp only [hpc, Bool.false_eq_true, if_false]; exact h.owns d vd hvd
-            have hblk1 : (if w.acfg.pocca = true then { vd.clear.ptr with alloc := vs.ptr.alloc } else vd.clear.ptr).blk = vd.blk := by
-              by_cases hpc : w.acfg.pocca = true <;> simp [hpc, Vec.ptr, Vec.clear]
-            generalize (if w.acfg.pocca = true then { vd.clear.ptr with alloc := vs.ptr.alloc } else vd.clear.ptr) = p1 at hp1 hblk1
-            -- intermediate world: vector d carries p1
-            have hw1 : WOwn { (w.set d (some (vd.clear.setPtr p1))) with threw := t } :=
-              h.set_owner d vd (vd.clear.setPtr p1) hvd (by show p1.blk = vd.blk; exact hblk1) (by rw [(hmk p1).1, (hmk p1).2]; exact hp1) t
-            by_cases hneed : (decide (p1.units < vs.ptr.units) || p1.blk.isNone) = true
-            · simp only [hneed, if_true]
-              have := hw1.reallocate d (vd.clear.setPtr p1) (by simp [World.set]) p1.alloc vs.ptr.units (fun p => vd.clear.setPtr p)
-                (fun p => ⟨(hmk p).1, rfl⟩) t
-              simp only [(hmk p1).1] at this
-              have hset : ∀ (x : Vec), ((w.set d (some (vd.clear.setPtr p1))).set d (some x)).vecs = (w.set d (some x)).vecs := by
-                intro x; funext i; simp only [World.set]; by_cases hi : i = d <;> simp [hi]
-              refine ⟨this.wf, ?_, ?_, ?_, this.noerr⟩
-              · intro i x hx; exact this.owns i x (by show ((w.set d _).set d _).vecs i = _; rw [hset]; exact hx)
-              · intro k1 k2 v1 v2 b h1 h2; exact this.excl k1 k2 v1 v2 b (by show ((w.set d _).set d _).vecs k1 = _; rw [hset]; exact h1)
-                  (by show ((w.set d _).set d _).vecs k2 = _; rw [hset]; exact h2)
-              · intro b hbl hk
-                obtain ⟨i, x, hx, hbx⟩ := this.noleak b hbl hk
-                exact ⟨i, x, by have : ((w.set d _).set d _).vecs i = some x := hx
-                                rw [hset] at this; exact this, hbx⟩
-            · simp only [hneed, Bool.false_eq_true, if_false]
-              exact hw1
+            heap := (vd.clear.ptr.copyAssign w.heap w.acfg vd.S vs.ptr).1, threw := t } :=
+          fun t => h.ptr_copyAssign d vd hvd vs.ptr (fun p => vd.clear.setPtr p) (fun p => ⟨by cases p; rfl, rfl⟩) t
         -- now the offset table
         cases hc : vd.clear.ptr.copyAssign w.heap w.acfg vd.S vs.ptr with
         | mk h1 r =>
